@@ -684,6 +684,26 @@ func c08Undeletable(run *rt.Run) {
 //
 // From the k-th write of the writer's thread on every write fails: the sink's retry fails as well, so none of those
 // events may be acknowledged; every acknowledged one must be in the files, whole and once.
+// runChild runs a child (usually under strace) in its own process group and kills the whole group when it has
+// not finished after d (a harness-side guard: the caller reports that as inconclusive). It returns whether the
+// child finished by itself.
+func runChild(c *exec.Cmd, d time.Duration) bool {
+	c.SysProcAttr = &syscall.SysProcAttr{Setpgid: true}
+	if err := c.Start(); err != nil {
+		return false
+	}
+	done := make(chan struct{})
+	go func() { c.Wait(); close(done) }()
+	select {
+	case <-done:
+		return true
+	case <-time.After(d):
+		syscall.Kill(-c.Process.Pid, syscall.SIGKILL)
+		<-done
+		return false
+	}
+}
+
 func c08WriteFaults(run *rt.Run) {
 	child := os.Getenv("VERIF_AUX_FSWRITER")
 	if child == "" {
@@ -694,6 +714,9 @@ func c08WriteFaults(run *rt.Run) {
 	for i := 0; i < n && !run.Stop(); i++ {
 		cr := r.Fork()
 		w := crashWorkload{Writers: 1, Records: 12, MaxBytes: rt.Pick(cr, []int{0, 150}), TSOnly: cr.Bool()}
+		if cr.Intn(3) == 0 {
+			w.ReopenEvery = cr.Range(2, 4)
+		}
 		k := cr.Range(1, 10)
 		errno := rt.Pick(cr, []string{"ENOSPC", "EIO", "EDQUOT"})
 		base, _ := os.MkdirTemp("", "fs08fault")
@@ -704,7 +727,7 @@ func c08WriteFaults(run *rt.Run) {
 		c := exec.Command("strace", append([]string{"-f", "-o", filepath.Join(base, "tr"), "-e", "trace=write",
 			"-e", fmt.Sprintf("inject=write:error=%s:when=%d+", errno, k), child}, w.args(dir, ackp)...)...)
 		c.Env = append(os.Environ(), "GOMAXPROCS=1")
-		c.Run()
+		runChild(c, 90*time.Second)
 		a := readAck(ackp)
 		if !a.done {
 			run.Inconclusive("child did not finish under persistent write-error injection")
